@@ -123,6 +123,25 @@ def gen(tier, seed, shard, nshards):
             out = _gc.meek_gadget_dag(("C10", seed, "gadget", k))
             rngI = util.rng_for("C10", seed, "gadgetI", k)
             yield "sampled-dagI", {"masks": out, "I": int(rngI.integers(0, 1 << len(out))) if k % 3 else 0}
+    # directed paths on 7-11 nodes whose labels zig-zag (.. 4 -> 5 -> 3 -> 6 -> 2 -> 7 ..) or are random, with one target: the forced
+    # orientations travel the whole path against and along the label order in turn, one edge per sweep of a label-ordered scan
+    zk = 0
+    for pz in (7, 8, 9, 10, 11):
+        for rep in range(6 if tier == "quick" else 40):
+            if zk % nshards == shard:
+                rngz = util.rng_for("C10", seed, "zigzag", pz, rep)
+                mid = pz // 2
+                zig = [mid + ((t + 1) // 2) * (1 if t % 2 else -1) for t in range(pz)]
+                zig = [v for v in zig if 0 <= v < pz]
+                order = zig if (rep % 3 == 0 and len(set(zig)) == pz) else [int(v) for v in rngz.permutation(pz)]
+                if rep % 2:
+                    order = order[::-1]
+                outz = [0] * pz
+                for t in range(pz - 1):
+                    outz[order[t]] |= 1 << order[t + 1]
+                for tgt in (order[0], order[pz // 2], order[-1]):
+                    yield "sampled-dagI", {"masks": outz, "I": 1 << tgt}
+            zk += 1
     for k in range(n["sampled"]):
         if k % nshards == shard:
             out = _gc.sampled_dag(("C10", seed, "sd", k), 6, 12, max_edges=11)
